@@ -24,8 +24,8 @@ P = {
  "C06": ("model_checking", "E3-sched + trace enumeration", "trace enumeration of the primitive accesses of every (len, src mod 8, dst mod 8) class per entry point, and controlled-scheduler enumeration of all writer/reader interleavings at primitive-access granularity",
          "Hook H1 records width and address of every primitive volatile access issued by the byte-copy helper; for all 576 classes x entry points the access sequence is checked (single access of the full width when aligned); all interleavings of a flipping writer and a reader are enumerated and the reader must see old or new.",
          "One naturally aligned volatile access of <= 8 bytes is a single machine access (LLVM volatile semantics + x86-64 single-copy atomicity); SC interleavings.", "2/C06"),
- "C07": ("exploration", "exhaustive-inputs", "exhaustive enumeration of an extreme-value alphabet over every public entry point, two build profiles, child process with watchdog",
-         "Every access/query entry point of slices, regions, guest memory, bitmaps and stream helpers x boundary and extreme addresses/lengths/counts x layouts at the bottom and top of the address space; each call under catch_unwind with a watchdog, in the overflow-checked and in the release profile.",
+ "C07": ("exploration", "exhaustive-inputs", "exhaustive enumeration of an extreme-value alphabet over every public entry point, two build profiles, every call under catch_unwind + fault handler + hang watchdog",
+         "Every access/query entry point of slices, regions, guest memory, bitmaps and stream helpers x boundary and extreme addresses/lengths/counts x layouts at the bottom and top of the address space; each call under catch_unwind plus a SIGABRT/SIGSEGV/SIGFPE handler that attributes the fault to the call, with a watchdog for calls that do not return, in the overflow-checked and in the release profile.",
          "Alphabet of boundary/extreme values, not all 2^64; program-controlled arguments (types, enlarge amounts, non-power-of-two alignments, array indices) excluded as documented.", "2/C07"),
  "C08": ("model_checking", "E3-sched", "stateless DFS over all interleavings of real threads under a controlled scheduler (hooked atomics), multinomial self-check",
          "All interleavings (unbounded for the small harnesses, preemption-bounded where stated) of 2..3 real threads marking, resetting, harvesting and cloning one AtomicBitmap whose pages share a word or straddle two words; every schedule is an execution of the real code; per-page conservation oracle.",
@@ -59,7 +59,7 @@ P = {
          "gntdev emulated at the ioctl contract level.", "2/C17"),
  "C18": ("exploration", "exhaustive-inputs", "exhaustive enumeration of zero-length forms x layers x address classes x ZST types (std and Xen builds)",
          "All zero-length forms at slice, region and guest-memory level at mapped/last/one-past/hole/0/u64::MAX addresses, empty containers, zero-sized element types; must be Ok, no panic, memory and bitmap unchanged, no device window requested.",
-         "Child process isolates panics/aborts.", "2/C18"),
+         "Panics are caught per form; aborts and faults are attributed by the signal handler.", "2/C18"),
  "C19": ("exploration", "exhaustive-inputs", "exhaustive enumeration of all operand pairs at width 8 (macro re-instantiated from the tree) and boundary grids at width 64 against u128 arithmetic",
          "impl_address_ops! from the current tree instantiated at width 8 (all 2^16 pairs per operation) and 16 (thorough, all 2^32); GuestAddress/MemoryRegionAddress at width 64 on the +-4 grid around 0, 2^8.. 2^64 squared and all 64 alignments.",
          "Width 64 is covered by a boundary grid, not exhaustively; genericity of the macro over the width.", "2/C19"),
@@ -111,7 +111,7 @@ def main():
             "add_only": True,
         },
         "engines": [
-            {"name": "E1-bfs", "path": "harness/src/bfs.rs", "serves_properties": ["C01", "C03", "C04", "C05", "C09", "C10", "C11", "C12", "C16", "C17"],
+            {"name": "E1-bfs", "path": "harness/src/props (per-property BFS loops)", "serves_properties": ["C01", "C03", "C04", "C05", "C09", "C10", "C11", "C12", "C16", "C17"],
              "kind_free_text": "explicit-state breadth-first search; transitions call the real API, every transition compared with a reference model, states deduplicated by canonical form"},
             {"name": "E2-choice-tree", "path": "harness/src/explore.rs", "serves_properties": ["C14", "C08", "C11", "C06"],
              "kind_free_text": "stateless choice-tree DFS by re-execution with a deviation bound (preemptions / non-default environment answers)"},
